@@ -7,6 +7,17 @@ VERIF = Path(__file__).resolve().parent.parent
 
 # id -> (level, technique, text, note, engine)
 CHECKS = {
+    "C12": (
+        "exploration",
+        "invariant monitor on every returned catalog (atan2 separations, nearest-centre oracle) + refusal test of the guard",
+        "Catalogs created in all three patch modes (centres in any order, weighted, single-object patches, reopened, "
+        "metadata recomputed) are checked per patch for record count, weight sum, containment and tightness of the radius, "
+        "keys 0..N-1, reported centre i == given centre i and every record nearest to its reported centre; measurements on "
+        "catalogs with different key sets (also of equal size) or centres shifted by f x radius must raise "
+        "InconsistentPatchesError for f > 1 and not for f = 0.",
+        "Objects within 1e-9 rad of a patch boundary are not generated.",
+        "checks/c12_metadata.py",
+    ),
     "C14": (
         "exploration",
         "reference-model monitor (longdouble/atan2 oracle) over hostile coordinate classes",
@@ -50,6 +61,18 @@ CHECKS = {
         "Either Davis-Peebles form accepted when DR and RD exist without RR; RR without DR may raise; infinite terms (counts "
         "over a zero weight product) are not judged.",
         "oracles/jack.py",
+    ),
+    "C09": (
+        "fault_enumeration",
+        "fault injection + outcome classifier under a process-group quiescence watchdog; directory tree hashes; reopen probe",
+        "The enumerated fault matrix (non-finite values, bad patch indices, injected worker/writer exceptions at first/middle/"
+        "last/only chunk; missing/unequal columns; no patch method; a centre without objects; every prior state of the cache "
+        "path) is executed with the real constructors for 1, 2 (and 4) workers, each in a forked child whose process group is "
+        "watched via /proc: an execution is classified returned(records)/raised/quiescent, the directory is hashed before and "
+        "after, and Catalog(dir) is probed afterwards; sequential and parallel outcomes are compared.",
+        "Hang = all processes of the group asleep and no CPU time consumed for 3 s (not a deadline); injected exceptions are "
+        "planted by wrapping module attributes before the pool is forked; non-integer patch indices are not judged.",
+        "engines/procwatch.py",
     ),
     "C10": (
         "exploration",
@@ -137,6 +160,12 @@ def main():
         engines=[
             dict(name="vlib", path="vlib/core.py", serves_properties=ALL,
                  kind_free_text="case runner: sharded execution, verdicts, known-finding classifier, evidence/replay writer"),
+            dict(name="procwatch", path="engines/procwatch.py", serves_properties=["C09", "C08"],
+                 kind_free_text="forked workload runner with /proc-based quiescence (hang) detection and process-group kill"),
+            dict(name="contracts", path="engines/contracts.py", serves_properties=["C17", "C03", "C04", "C11", "C12"],
+                 kind_free_text="icontract structural invariants attached to the repository's classes from the harness"),
+            dict(name="mutants", path="tools/mutants.py", serves_properties=ALL,
+                 kind_free_text="monitor validation: applies deliberate property-breaking edits to /repo, runs the quick checks, restores"),
             dict(name="oracles", path="oracles/", serves_properties=ALL,
                  kind_free_text="independent reference computations (brute force, longdouble, explicit loops)"),
         ],
